@@ -2,6 +2,7 @@ import H4.Driver.Util
 import H4.Driver.Rle
 import H4.Driver.Slab
 import H4.Driver.Elem
+import H4.Driver.ExtElem
 import H4.Driver.Conv
 import H4.Driver.HPIO
 import H4.Driver.Atom
@@ -30,6 +31,7 @@ structure World where
   dummy : Nat := 0
   hp : H4.HPIO.HP := H4.HPIO.opened []
   elem : H4.Elem.World := {}
+  ext : H4.ExtElem.XWorld := {}
   atom : H4.Atom.State := H4.Atom.State.init
   chunk : ChunkSt := {}
   vg : H4.VGroup.File := {}
@@ -53,6 +55,7 @@ def stepWorld (w : World) (engine : String) (args : List String) : World × Stri
   | "dd" => let (d, out) := stepDD w.dd args; ({ w with dd := d }, out)
   | "sd" => (w, stepSd args)
   | "elem" => let (e, out) := stepElem w.elem args; ({ w with elem := e }, out)
+  | "ext" => let (e, out) := stepExt w.ext args; ({ w with ext := e }, out)
   | "conv" => (w, stepConv args)
   | "atom" => let (a, out) := stepAtom w.atom args; ({ w with atom := a }, out)
   | "chunk" => let r := stepChunk w.chunk args; ({ w with chunk := r.1 }, r.2)
